@@ -216,7 +216,7 @@ class TreeSuite(Suite):
                     np_[perm[old]] = -1 if pp == -1 else perm[pp]; nx[perm[old]] = xyz[old]
                 pids, xyz = np_, nx
             t = {"n": len(pids), "pids": pids, "types": [1] + [3] * (len(pids) - 1), "xyz": xyz, "r": [1.0] * len(pids)}
-            out.append({"class": "iso-coincident-ends/named", "tree": t, "op": "iso", "arg": rng.choice([0.5, 1.0, 1.5])})
+            out.append({"class": "iso-coincident-ends/named", "tree": t, "op": "iso", "arg": rng.choice([0.5, 1.0, 1.5]), "warm": [None, 3.0, 2.5][m % 3]})
         k = 0
         for n in [2, 3, 4, 6, 9, 14] + ([30, 80] if big else []):
             for _ in range(2 if not big else 5):
@@ -256,7 +256,9 @@ class TreeSuite(Suite):
                         t2 = dict(t); t2["xyz"] = [list(p) for p in t["xyz"]]; t2["xyz"][a] = list(t["xyz"][b])
                         out.append({"class": f"iso-coincident-ends/{shape}", "tree": t2, "op": "iso", "arg": rng.choice([0.5, 1.0])})
                 for op in (("iso", rng.choice([0.4, 0.5, 1.0, 1.5, 2.5])), ("smooth", rng.choice([3, 5]))):
-                    out.append({"class": f"{op[0]}/{shape}", "tree": t, "op": op[0], "arg": op[1]})
+                    # half of the trees have been resampled (coarsely) and smoothed before: a transform of a tree depends on the tree only
+                    warm = rng.choice([None, 3.0, 2.0]) if nn >= 3 else None
+                    out.append({"class": f"{op[0]}/{shape}" + ("/again" if warm else ""), "tree": t, "op": op[0], "arg": op[1], "warm": warm})
         return out
 
     def run(self, case):
@@ -266,6 +268,8 @@ class TreeSuite(Suite):
         before = {k: v.copy() for k, v in t.ndata.items()}
         with warnings.catch_warnings():
             warnings.simplefilter("ignore")
+            if case.get("warm"):
+                IsometricResampler(case["warm"])(t); TreeSmoother(3)(t); t.get_branches(); t.length()
             y = (IsometricResampler(case["arg"]) if case["op"] == "iso" else TreeSmoother(case["arg"]))(t)
         return {"pid": y.pid().tolist(), "id": y.id().tolist(), "xyz": y.xyz().astype(float).tolist(), "r": [float(v) for v in y.r()],
                 "length": float(y.length()), "length_in": float(t.length()),
